@@ -13,20 +13,55 @@ only_checks = [a.split("=", 1)[1].split(",") for a in sys.argv if a.startswith("
 PARTIAL = bool(only_checks) or own
 
 
+# --repo=DIR: work on a plain copy of /repo (rsync without .git/target: same tree hash, so cached facts are shared) instead of /repo itself;
+# --jobs=N: split the ids over N such copies under /tmp and run them side by side (the parent then writes the table)
+REPO = ([a.split("=", 1)[1] for a in sys.argv if a.startswith("--repo=")] or ["/repo"])[0]
+JOBS = int(([a.split("=", 1)[1] for a in sys.argv if a.startswith("--jobs=")] or ["0"])[0])
+sys.path.insert(0, VERIF)
+
+
 def clean():
-    return subprocess.run(["git", "-C", "/repo", "status", "--porcelain"], capture_output=True, text=True).stdout.strip() == ""
+    if REPO == "/repo":
+        return subprocess.run(["git", "-C", "/repo", "status", "--porcelain"], capture_output=True, text=True).stdout.strip() == ""
+    return subprocess.run(["diff", "-rq", "-x", ".git", "-x", "target", "/repo", REPO], capture_output=True, text=True).stdout.strip() == ""
 
 
-assert clean(), "/repo not clean"
+def undo(patch):
+    if REPO == "/repo":
+        subprocess.check_call(["git", "-C", "/repo", "checkout", "--", "."])
+    else:
+        subprocess.check_call(["rsync", "-a", "--delete", "--exclude", ".git", "--exclude", "target", "/repo/", REPO + "/"])
+
+
+if JOBS:
+    import shutil
+    assert subprocess.run(["git", "-C", "/repo", "status", "--porcelain"], capture_output=True, text=True).stdout.strip() == "", "/repo not clean"
+    procs = []
+    for j in range(JOBS):
+        mine = ids[j::JOBS]
+        if not mine:
+            continue
+        d = f"/tmp/mx-repo-{os.getpid()}-{j}"
+        subprocess.check_call(["rsync", "-a", "--delete", "--exclude", ".git", "--exclude", "target", "/repo/", d + "/"])
+        fl = [a for a in sys.argv[1:] if a.startswith("--") and not a.startswith(("--jobs=", "--repo="))]
+        procs.append((d, subprocess.Popen([sys.executable, os.path.abspath(__file__), f"--repo={d}", "--notable"] + fl + mine)))
+    rc = 0
+    for d, pr in procs:
+        rc |= pr.wait()
+        shutil.rmtree(d, ignore_errors=True)
+    if rc:
+        sys.exit(rc)
+    ids = []
+assert clean(), f"{REPO} not clean"
 ev = tempfile.mkdtemp(prefix="seed-evidence-")
-env = dict(os.environ, VERIF_EVIDENCE_DIR=ev)
+env = dict(os.environ, VERIF_EVIDENCE_DIR=ev, VERIF_REPO=REPO)
 for sid in ids:
     d = os.path.join(VERIF, BASE, sid)
     meta = json.load(open(os.path.join(d, "meta.json")))
     which = only_checks[0] if only_checks else (props if not own else sorted({meta["property"], "C07"}))
     res, t0 = {}, time.time()
     try:
-        subprocess.check_call(["git", "-C", "/repo", "apply", os.path.join(d, "patch.diff")])
+        subprocess.check_call(["git", "apply", os.path.join(d, "patch.diff")], cwd=REPO)
         procs = {p: subprocess.Popen([sys.executable, os.path.join(VERIF, "verif.py"), "check", p, "--no-controls"], cwd=VERIF, env=env,
                                      stdout=subprocess.PIPE, stderr=subprocess.PIPE, text=True) for p in which[:1]}
         # first check extracts the facts; the rest run in parallel on the cached facts
@@ -39,8 +74,8 @@ for sid in ids:
             o, e = pr.communicate()
             res[p] = (pr.returncode, o, e)
     finally:
-        subprocess.check_call(["git", "-C", "/repo", "checkout", "--", "."])
-    assert clean(), "/repo not clean after undo"
+        undo(os.path.join(d, "patch.diff"))
+    assert clean(), f"{REPO} not clean after undo"
     det = {"seed": sid, "property": meta["property"], "checks_run": which, "reported_by": {}, "errors": {}}
     for p, (rc, o, e) in sorted(res.items()):
         fired = [l for l in o.splitlines() if l.startswith(("RULE", "ANCHOR"))]
@@ -57,7 +92,7 @@ for sid in ids:
             for l in ls[:5]:
                 print("     ", p_, l[:400])
     print(sid, "caught by", sorted(det["reported_by"]) or "NOTHING", ("errors " + str(sorted(det["errors"]))) if det["errors"] else "", f"{time.time()-t0:.0f}s", flush=True)
-if PARTIAL:
+if PARTIAL or "--notable" in sys.argv:
     sys.exit(0)
 # table
 rows = []
